@@ -236,7 +236,61 @@ def d2_tiling(facts, rep):
             ok = all(d in inits and dim_of_init(fn, inits[d]['s']) == d for d in dims)
             rep.ob('D2', 'K10', fn, 'the splitting constructor copies every dimension from the same dimension of the parent', ok,
                    'dimensions initialised: %s' % dict((k, dim_of_init(fn, v['s'])) for k, v in inits.items()), key_extra=str(fn.l0))
-    rep.floor('D2', 8, 'do_split + splitting constructors')
+    d2_ratio_comparisons(facts, rep)
+    rep.floor('D2', 12, 'do_split + splitting constructors + ratio comparisons')
+
+
+def d2_ratio_comparisons(facts, rep):
+    """Multi-dimensional ranges split the dimension with the larger size/grainsize ratio.  The ratios are compared by cross
+    multiplication, `A.size()*grain(B) < B.size()*grain(A)`, and the larger one is the dimension that is split (which is
+    what keeps a dimension with size <= grainsize from being split while another one is divisible).  K10 operand roles:
+    each side multiplies the size of one dimension with the grainsize of the OTHER dimension, and the branch splits the
+    dimension whose ratio was found larger."""
+    def dim_call(fn, x, name):
+        # <dim>.size() / <dim>.grainsize(): returns the dimension member the call is made on
+        n = fn.n(fn.strip(x))
+        for _ in range(4):
+            if n.get('k') == 'ctor' and len(n.get('a', [])) == 1:      # double(x)
+                n = fn.n(fn.strip(n['a'][0]))
+            elif n.get('k') == 'cast':
+                n = fn.n(fn.strip(n['sub']))
+            else:
+                break
+        if n.get('k') == 'call' and (fn.callee(n['s']) or {}).get('n') == name and n.get('obj', -1) >= 0:
+            return expr_key_dim(fn, n['obj'])
+        return None
+
+    def expr_key_dim(fn, o):
+        from engine.rules import expr_key
+        return expr_key(fn, o)
+
+    def product(fn, x):
+        n = fn.n(fn.strip(x))
+        if n.get('k') != 'binop' or n['op'] != '*':
+            return None
+        for a, b in ((n['l'], n['r']), (n['r'], n['l'])):
+            sz, gr = dim_call(fn, a, 'size'), dim_call(fn, b, 'grainsize')
+            if sz is not None and gr is not None:
+                return sz, gr
+        return None
+    n = 0
+    for fn in facts.fns.values():
+        if not (fn.p.startswith(D1 + 'blocked_range2d::') or fn.p.startswith(D1 + 'blocked_range3d::') or fn.p.startswith(D1 + 'blocked_nd_range')):
+            continue
+        for pos, sx, node in fn.stmt_elems(('binop',)):
+            if node['op'] not in ('<', '>', '<=', '>='):
+                continue
+            lp, rp = product(fn, node['l']), product(fn, node['r'])
+            if lp is None or rp is None:
+                continue
+            n += 1
+            ok = lp[0] == rp[1] and lp[1] == rp[0] and lp[0] != lp[1]
+            rep.ob('D2', 'K10', fn, 'the size/grainsize ratios of two dimensions are compared by cross multiplication (line %s)' % node['ln'], ok,
+                   'one side multiplies a size with the grainsize of the same comparison side\'s own dimension (or the two sides do not '
+                   'mirror each other): the grainsizes cancel, the longer dimension is split whether or not it is divisible',
+                   ln=node['ln'], key_extra='ratio%s' % node['ln'])
+    if n < 4:
+        raise AnalysisBroken('only %d size*grainsize ratio comparisons found in the multi-dimensional ranges' % n)
 
 
 def dim_of_init(fn, s):
